@@ -98,6 +98,9 @@ TwoLaws(r) ==
   <<"diff-sign", fin /\ r.ez = 0 /\ (IsZeroV(r.d) \/ r.d180 = 0) => SignG(r.d) = r.syx>>,
   <<"diff-oneterm", r.d1 = r.d>>,
   <<"diff-nonfinite", ~fin => IsNaNV(r.d)>>,
+  \* sincosde(d, e) = sine and cosine of the exact difference; AngRound is the identity for a reduced angle >= 1/16 (guard at 1/8),
+  \* so the only extra error is the rounding of the reduced angle plus correction: one more ulp
+  <<"sincosde", fin /\ r.dg \in {0, 1} => r.dse <= TolTrig + 1000 /\ r.dce <= TolTrig + 1000>>,
   <<"atan2", CASE ac[1] = "nan" -> IsNaNV(r.at)
                [] ac[1] = "deg" -> r.ak = ac[2] /\ SignG(r.at) = ac[3] /\ (ac[2] = 0 => IsZeroV(r.at))
                [] OTHER -> SignG(r.at) = ac[2] /\ IsNumV(r.at) /\ (r.asub < 0 \/ r.ea <= TolAtan)>>,
